@@ -96,6 +96,20 @@ values `first + i*(second - first)`; dask and NumPy use the same formulas (diffe
 are *not* the exact-arithmetic ones in general (`arange_f_num_not_exact`).  Full statement, false in general:
 `ArangeFExactStatement`.  Proved: the regime in which no operation rounds (`arange_f_exact_partial`). -/
 
+/-- **binary64_round_spec** (for all inputs): the rounding every `add`/`sub`/`mul`/`ofInt` of the model applies to its exact
+    result returns a double (at most 53 significant bits, last place ≥ 2^-1074) nearest to it — at most half a unit of the
+    last place away — and the even significand on a tie.  (`div` rounds a ≥ 55-bit truncation with a sticky bit the same
+    way; that this equals rounding the exact quotient is validated bit for bit against CPython, not proved, except for
+    exact quotients: `div_exact`.) -/
+theorem binary64_round_spec (m e : Int) :
+    ((roundDy m e).m.natAbs ≤ 2 ^ 53 ∧ -1074 ≤ (roundDy m e).e)
+    ∧ ∃ t : Nat, (roundDy m e).e = e + t
+        ∧ (2 * ((roundDy m e).m * 2 ^ t - m)).natAbs ≤ 2 ^ t
+        ∧ ((2 * ((roundDy m e).m * 2 ^ t - m)).natAbs = 2 ^ t → (roundDy m e).m % 2 = 0) :=
+  ⟨roundDy_is_double m e, roundDy_nearest m e⟩
+
+example : roundDy (2 ^ 53 + 1) 0 = ⟨2 ^ 52, 1⟩ ∧ roundDy (2 ^ 53 + 3) 0 = ⟨2 ^ 52 + 2, 1⟩ := by decide
+
 /-- the binary64 plan agrees with exact arithmetic on the same inputs (false in general: `arange_f_num_not_exact`) -/
 def ArangeFExactStatement : Prop :=
   ∀ (start stop step : F64) (n : Nat), step.m ≠ 0 → arangeNumF start stop step = some n →
@@ -490,6 +504,12 @@ theorem tri_den (k : Int) (i j : Nat) :
     Option.map_some, Option.getD_some]
   congr 1
   apply propext; constructor <;> intro h <;> omega
+
+/-- … and for every chunking of rows and columns the assembled blocks of `tri` (each computed from its row/column
+    offsets) hold `triSpec` of the global position (`grid_den` for this function of the index) -/
+theorem tri_blocks_den (k : Int) (rch cch : List Nat) (i j : Nat) (hi : i < sum rch) (hj : j < sum cch) :
+    gridRead (fun p => triSpec k (p.getD 0 0) (p.getD 1 0)) [rch, cch] [i, j] = some (triSpec k i j) :=
+  grid_den _ _ _ ⟨hi, hj, trivial⟩
 
 /-- **chunks_sum_shape**: the lazily reported chunks of every creation routine are
     `normalize_chunks(chunks, shape)`, hence add up to the shape (C23 `normalize_sum_nonneg`). -/
